@@ -54,8 +54,7 @@ def validate(number):
     number = compact(number)
     if not number.endswith('MVA'):
         raise InvalidFormat()
-    orgnr.validate(number[:-3])
-    return number
+    return orgnr.validate(number[:-3]) + 'MVA'
 
 
 def is_valid(number):
